@@ -1,6 +1,7 @@
 package main
 
 import (
+	"bufio"
 	"bytes"
 	"encoding/binary"
 	"fmt"
@@ -8,6 +9,7 @@ import (
 	"math/rand"
 	"net"
 	"os"
+	"os/exec"
 	"path/filepath"
 	"sort"
 	"strings"
@@ -15,19 +17,19 @@ import (
 )
 
 type wrInput struct {
-	Model      string  `json:"model"`
-	Brand      string  `json:"brand"`
-	FPS        int     `json:"fps"`
-	ResX       int     `json:"resx"`
-	ResY       int     `json:"resy"`
-	FrameSize  int     `json:"frame_size"`
-	Frames     int     `json:"frames"`
-	Seed       int64   `json:"content_seed"`
-	Chunks     []int   `json:"chunk_sizes"` // cycled
-	GoMaxProcs int     `json:"gomaxprocs"`
-	Tail       int     `json:"partial_tail_bytes"` // a truncated last frame
-	PauseEvery int     `json:"pause_every_chunks"`
-	SpreadMs   int     `json:"spread_ms,omitempty"` // > 0: frames are sent one by one, evenly over this many milliseconds
+	Model      string `json:"model"`
+	Brand      string `json:"brand"`
+	FPS        int    `json:"fps"`
+	ResX       int    `json:"resx"`
+	ResY       int    `json:"resy"`
+	FrameSize  int    `json:"frame_size"`
+	Frames     int    `json:"frames"`
+	Seed       int64  `json:"content_seed"`
+	Chunks     []int  `json:"chunk_sizes"` // cycled
+	GoMaxProcs int    `json:"gomaxprocs"`
+	Tail       int    `json:"partial_tail_bytes"` // a truncated last frame
+	PauseEvery int    `json:"pause_every_chunks"`
+	SpreadMs   int    `json:"spread_ms,omitempty"` // > 0: frames are sent one by one, evenly over this many milliseconds
 }
 
 func wrFrames(in wrInput) [][]byte {
@@ -443,6 +445,80 @@ func init() {
 			emit(Case{Coq: fmt.Sprintf("mkLag %s %d %d", coqBool(ok), 0, len(sent)), Input: in,
 				Impl: map[string]interface{}{"ok": ok, "why": why, "files": len(files), "driver": strings.TrimSpace(line)},
 				Tags: []string{fmt.Sprintf("files=%d", len(files)), "rotation"}, Nontriv: len(files) >= 2, Key: fmt.Sprint("rot", in.Seed)})
+		}
+	}
+}
+
+// WRITERRACE: the writer built with the Go race detector; one connection with a burst of frames, more than five
+// seconds of silence (timers and background work of the daemon fire while nothing arrives), then the camera
+// disconnects.  No data race may be reported, and the frames must be stored as always.
+func init() {
+	runners["WRITERRACE"] = func(rng *rand.Rand, n int, tier string, emit func(Case)) {
+		for i := 0; i < n; i++ {
+			in := wrGen(rng, i, true)
+			in.FrameSize, in.Frames, in.Tail, in.PauseEvery, in.Chunks, in.GoMaxProcs = 16+rng.Intn(16), 60, 0, 0, []int{4096}, 4
+			dir, _ := ioutil.TempDir(runDir(), "twrace")
+			out := filepath.Join(dir, "out")
+			os.Mkdir(out, 0755)
+			sock := filepath.Join(dir, "s")
+			cmd := exec.Command(buildDir() + "/tw-driver-race")
+			cmd.Env = append(os.Environ(), "VERIF_DRIVER=serve", "VERIF_ARGS="+out+" "+sock+" 1", "GOMAXPROCS=4", "GORACE=halt_on_error=0")
+			var stderr bytes.Buffer
+			cmd.Stderr = &stderr
+			so, _ := cmd.StdoutPipe()
+			ok, why := true, ""
+			if err := cmd.Start(); err != nil {
+				ok, why = false, "race build of the writer did not start: "+err.Error()
+			} else {
+				rd := bufio.NewReader(so)
+				rd.ReadString('\n') // listening
+				conn, err := net.Dial("unix", sock)
+				if err != nil {
+					ok, why = false, err.Error()
+				} else {
+					frames := wrFrames(in)
+					hdr := fmt.Sprintf("ResX: %d\nResY: %d\nFrameSize: %d\nModel: %s\nBrand: %s\nFPS: %d\nCameraSerial: 5\nFirmware: 1.0.0\n\n", in.ResX, in.ResY, in.FrameSize, in.Model, in.Brand, in.FPS)
+					conn.Write([]byte(hdr))
+					for _, f := range frames {
+						conn.Write(f)
+					}
+					time.Sleep(5600 * time.Millisecond)
+					conn.Close()
+					rd.ReadString('\n') // conn-end
+				}
+				cmd.Process.Kill()
+				cmd.Wait()
+				if n := strings.Count(stderr.String(), "WARNING: DATA RACE"); n > 0 {
+					ok = false
+					rep := stderr.String()
+					if k := strings.Index(rep, "WARNING: DATA RACE"); k >= 0 {
+						rep = rep[k:]
+					}
+					if len(rep) > 1500 {
+						rep = rep[:1500]
+					}
+					why = fmt.Sprintf("%d data race report(s) from the writer; first: %s", n, rep)
+				}
+				var got [][]byte
+				names, _ := filepath.Glob(filepath.Join(out, "*"))
+				sort.Strings(names)
+				for _, nm := range names {
+					b, _ := ioutil.ReadFile(nm)
+					_, fr, err := cptrParse(b)
+					if err != nil {
+						ok, why = false, why+" [file does not parse: "+err.Error()+"]"
+					}
+					got = append(got, fr...)
+				}
+				sent := wrFrames(in)
+				if len(got) != len(sent) {
+					ok, why = false, why+fmt.Sprintf(" [%d frames stored, %d sent]", len(got), len(sent))
+				}
+			}
+			os.RemoveAll(dir)
+			emit(Case{Coq: fmt.Sprintf("mkLag %s %d %d", coqBool(ok), 0, in.Frames), Input: in,
+				Impl: map[string]interface{}{"ok": ok, "why": why},
+				Tags: []string{"race-detector-run", "silence>5s"}, Nontriv: true, Key: fmt.Sprint("wrace", in.Seed)})
 		}
 	}
 }
